@@ -41,10 +41,11 @@ def main():
     only_check = '--only-check' in sys.argv
     patch = os.path.join(seed, 'patch.diff')
     demo = os.path.join(seed, 'demo.rs')
-    where = open(os.path.join(seed, 'demo_where.txt')).read()
-    cands = [c for c in re.findall(r'(crates/[\w\-/]+\.rs)', where) if not c.endswith('util.rs')]
-    demo_path = cands[0]
-    mt = re.search(r'--test\s+(\w+)', where)
+    demo_path = ''
+    if not only_check:
+        where = open(os.path.join(seed, 'demo_where.txt')).read()
+        cands = [c for c in re.findall(r'(crates/[\w\-/]+\.rs)', where) if not c.endswith('util.rs')]
+        demo_path = cands[0]
     meta = {'property': prop, 'source': seed, 'demo_file': demo_path}
     out_dir = os.path.join(ROOT, 'seeded', name)
     if not only_check:
